@@ -253,6 +253,8 @@ typedef struct pv_world {
     uint8_t rand_delivered[256]; size_t rand_total;      /* bytes delivered in this call */
     int alloc_failed_in_call;
     uint64_t aliased_norm_calls;    /* NFC/NFKD called with overlapping input and output */
+    int norm_gentle;                /* C16: the normalisers write their result and its terminator only (a clobbered buffer would wipe evidence) */
+    int norm_invalid_empty;         /* the normalisers answer invalid UTF-8 with an empty string (what a wrapper around a failing converter does) */
     /* ledger */
     pv_block live[PV_MAXLIVE]; int nlive;
     void* freed_ring[64]; int freed_pos;
@@ -282,6 +284,7 @@ void pv_api_inject(const polyseed_dependency* d);
 #define PV_DEP_ABI_BYTES (8 * sizeof(void (*)(void)))     /* sizeof(polyseed_dependency) at the pinned release */
 void pv_api_inject_raw(const polyseed_dependency* d);
 void pv_premain_judge(const char* prop, unsigned what);
+bool pv_utf8_valid(const char* str);
 char* pv_map_repeated(uint64_t n, uint64_t* maplen);   /* n bytes of 'a' + terminator backed by one 2 MiB chunk mapped repeatedly; munmap(ptr, *maplen) */
 int pv_api_enable_features(unsigned mask);
 polyseed_status pv_api_create(unsigned features, polyseed_data** out);
